@@ -179,10 +179,16 @@ func (w *world) boot() error {
 		w.plugins[typ] = p
 		w.sender.VerifWorker().AddPlugin(p)
 	}
-	if w.store, err = sqlite.New(w.aio, mt, &sqlite.Config{Size: 100, BatchSize: 100, Path: "file:" + w.path + "?_busy_timeout=60", TxTimeout: 5 * time.Second}); err != nil {
+	if w.store, err = sqlite.New(w.aio, mt, &sqlite.Config{Size: 100, BatchSize: 100, Path: w.path, TxTimeout: 5 * time.Second}); err != nil {
 		return err
 	}
 	if err = w.store.Start(nil); err != nil {
+		return err
+	}
+	// a short busy timeout for the busy-commit fault, set on the (single) connection rather than
+	// in the path: the path stays whatever the store makes of a plain file name
+	w.store.VerifDB().SetMaxOpenConns(1)
+	if _, err = w.store.VerifDB().Exec("PRAGMA busy_timeout = 60"); err != nil {
 		return err
 	}
 	if w.obs == nil {
@@ -503,6 +509,7 @@ func (w *world) exec(batch []*sub, fail string) error {
 	if fail == "busy" {
 		// another connection holds a read transaction: the COMMIT of the batch cannot get the
 		// exclusive lock and fails with SQLITE_BUSY after the busy timeout
+		_, _ = w.store.VerifDB().Exec("PRAGMA busy_timeout = 60")
 		if tx, err := w.obs.Begin(); err == nil {
 			var n int
 			_ = tx.QueryRow("SELECT count(*) FROM promises").Scan(&n)
